@@ -89,10 +89,13 @@ type Stats struct {
 	Failures  []Failure
 	Disagree  int64
 	SpecFails int64
+	KnownKept map[string]int // failures kept per listed finding (the rest are only counted)
+	KnownHits map[string]int64
+	NewKept   int
 }
 
 func newStats() *Stats {
-	return &Stats{PerGen: map[string]int64{}, Distinct: map[uint64]struct{}{}, Dist: map[string]int64{}}
+	return &Stats{PerGen: map[string]int64{}, Distinct: map[uint64]struct{}{}, Dist: map[string]int64{}, KnownKept: map[string]int{}, KnownHits: map[string]int64{}}
 }
 
 func fnv(s string) uint64 {
@@ -149,6 +152,7 @@ func fieldAgrees(name string, p *Probe) bool {
 
 // engine runs cases through implementation and model.
 type engine struct {
+	kf      *findings
 	cfg     RunConfig
 	prop    *Property
 	stats   *Stats
@@ -418,7 +422,15 @@ func (e *engine) runBatch(id int, mp *modelproc.Proc, batch []Case) {
 			} else {
 				st.Disagree++
 			}
-			if len(st.Failures) < 3000 {
+			// attribution happens here, so that hits of a listed finding can never crowd out a new failure
+			if id := e.kf.match(e.cfg.Prop, &f); id != "" {
+				st.KnownHits[id]++
+				if st.KnownKept[id] < 10 {
+					st.KnownKept[id]++
+					st.Failures = append(st.Failures, f)
+				}
+			} else if st.NewKept < 3000 {
+				st.NewKept++
 				st.Failures = append(st.Failures, f)
 			}
 		}
@@ -458,7 +470,7 @@ func runCheck(cfg RunConfig) int {
 		return 2
 	}
 	t0 := time.Now()
-	e := &engine{cfg: cfg, prop: prop, stats: newStats(), watch: make([]atomic.Value, cfg.Workers), started: make([]atomic.Int64, cfg.Workers)}
+	e := &engine{kf: loadFindings(cfg.Findings), cfg: cfg, prop: prop, stats: newStats(), watch: make([]atomic.Value, cfg.Workers), started: make([]atomic.Int64, cfg.Workers)}
 	cases := make(chan []Case, cfg.Workers*2)
 	var wg sync.WaitGroup
 	for i := 0; i < cfg.Workers; i++ {
@@ -539,6 +551,7 @@ type Result struct {
 	Disagree   int64            `json:"disagreements"`
 	SpecFails  int64            `json:"spec_failures"`
 	Known      []string         `json:"known_findings_seen"`
+	KnownHits  map[string]int64 `json:"known_finding_hits"`
 	Violations []string         `json:"violation_files"`
 	WallS      float64          `json:"wall_s"`
 	Failures   []Failure        `json:"first_failures"`
@@ -547,7 +560,7 @@ type Result struct {
 func report(cfg RunConfig, st *Stats, wall time.Duration) int {
 	res := Result{Property: cfg.Prop, Tier: cfg.Tier, Seed: cfg.Seed, Cases: st.Cases, Accepted: st.Accepted,
 		Distinct: len(st.Distinct), PerGen: st.PerGen, Dist: st.Dist, Samples: st.Samples,
-		Disagree: st.Disagree, SpecFails: st.SpecFails, WallS: wall.Seconds()}
+		Disagree: st.Disagree, SpecFails: st.SpecFails, KnownHits: st.KnownHits, WallS: wall.Seconds()}
 	kf := loadFindings(cfg.Findings)
 	seenKnown := map[string]bool{}
 	exit := 0
